@@ -214,8 +214,14 @@ structure Request where
   /-- `len(pctx.Req.Question)` -/
   nq : Nat
   /-- oracle: `s.access.isBlockedHost(NormalizeDomain(q.Name), q.Qtype)` for the
-  first question -/
+  first question: the rule engine sees the normalised name and the TYPE of the
+  question (rules may carry `$dnstype`), nothing else -/
   hostBlocked : Bool
+  /-- `q.Qclass` of the first question (IN = 1, CH = 3, HS = 4, NONE = 254, ANY = 255, …):
+  `HandleBefore` never reads it -/
+  qclass : Nat
+  /-- `q.Qtype` of the first question: read only to ask the rule engine -/
+  qtype : Nat
 
 /-- `clientID, cidErr := s.clientIDFromDNSContext(pctx)`: the ClientID the
 access checks see — empty when the extraction failed. -/
